@@ -56,7 +56,7 @@ def build(rng, tier):
     shapes = []
     for n in range(1, nmax + 1):
         allk = list(itertools.product([NULL, 1, 2], repeat=n))
-        shapes += [(list(k), n) for k in (allk if n <= 2 else rng.sample(allk, 8 if tier == "quick" else 30))]
+        shapes += [(list(k), n) for k in (allk if n <= 2 and tier == "thorough" else rng.sample(allk, min(len(allk), 3 if tier == "quick" else 30)))]
     for keys, n in shapes:
         for emb in EMBS:
             e = EMB[emb]
@@ -71,7 +71,7 @@ def build(rng, tier):
                     if not C.api_supported(op, emb) or (op == "sum" and e.kind == "M"):
                         continue
                     c = C.base_case(op, keys, vals, kenc=kenc, emb=emb, tf=int(rng.random() < 0.25))
-                    c.update(kcont=kcont_a, vcont=vcont_arg(vcont, n), vname="v")
+                    c.update(kcont=kcont_a, vcont=vcont_arg(vcont, n), vname="v", nanull=1)
                     if c["tf"]:
                         c["kcont"] = rng.pick(["np", "series"]) if not kenc.startswith("cat") else "np"
                     if n >= 2 and rng.random() < 0.2 and not kenc.startswith("cat") and c["kcont"] in ("np", "series"):
@@ -82,13 +82,15 @@ def build(rng, tier):
                     if op == "cumsum" and e.kind == "M":
                         continue
                     v = [x % 2 for x in vals] if emb == "bool" else vals
-                    cum.append(dict(op=op, keys=keys, vals=v, emb=emb, level="api", kenc=kenc, kcont=kcont_a, vcont=vcont_arg(vcont, n)))
+                    cum.append(dict(op=op, keys=keys, vals=v, emb=emb, level="api", kenc=kenc, kcont=kcont_a, vcont=vcont_arg(vcont, n), nanull=1))
                 # -- rolling extremes / shift / diff (temporal values are the stated clause; numbers for the others)
                 for op in (["min", "max", "shift", "diff"] if tier == "thorough" else rng.sample(["min", "max", "shift", "diff"], 2)):
                     if emb == "bool" or (op == "diff" and e.kind == "u"):
                         continue
+                    if e.kind in "iu" and e.base != 0:
+                        continue      # (rolling / shifted integers come back as float64: exactness is stated for temporal values only)
                     W = rng.pick([1, 2, 2, 3])
-                    roll.append(dict(op=op, W=W, minp=rng.randrange(1, W + 1), keys=keys, vals=vals, emb=emb, level="api", kenc=kenc, kcont=kcont_a, vcont=vcont_arg(vcont, n)))
+                    roll.append(dict(op=op, W=W, minp=rng.randrange(1, W + 1), keys=keys, vals=vals, emb=emb, level="api", kenc=kenc, kcont=kcont_a, vcont=vcont_arg(vcont, n), nanull=1))
     # -- head / tail / nth: every integer width, bool-free, temporal units, containers that carry an index
     for keys, n in shapes:
         for vdt in ["int8", "int16", "int32", "int64", "uint8", "uint16", "uint32", "uint64", "float32", "float64",
@@ -153,7 +155,9 @@ def run(tier):
             ("cum", cum, rowwise.run_cum, "Trace_GBCumulative", C08.TRACE_CFG.format(diag="FALSE")),
             ("roll", roll, rowwise.run_roll, "Trace_GBRolling", C09.trace_cfg()),
             ("select", sel, rowwise.run_select, "Trace_GBSelect", C15.TRACE_CFG)]:
-        traces = ck.drive(fn, cases, warm_cases=warm(cases))
+        # one worker per value dtype: kernels that take function arguments are compiled per process
+        grp = lambda c: EMB[c["emb"]].dtype.str if "emb" in c else str(c.get("vdtype"))
+        traces = ck.drive(fn, cases, warm_cases=warm(cases), group=grp)
         for t in traces:
             t["family"] = name
         key = lambda t: json.dumps([t.get("op") or t.get("kind"), t.get("keys"), t.get("vals"), t.get("emb"), t.get("cfg")])
